@@ -825,10 +825,14 @@ impl<'a> Ex<'a> {
             let mut stream = SplitMix64::new(fb);
             let mut used = 0u32;
             let mut t: &Tree = tree;
+            let mut trace: Vec<String> = vec![];
             loop {
                 match t {
                     Tree::Leaf(out) => {
                         if *out != o.out || used != o.cons {
+                            if std::env::var("KERN_DEBUG").is_ok() {
+                                eprintln!("MC mismatch trace: {}", trace.join(" | "));
+                            }
                             return Err(format!("random stream {}: tree predicts outcome {} after {} draws, real code gave {} after {}", i, out, used, o.out, o.cons));
                         }
                         break;
@@ -849,6 +853,7 @@ impl<'a> Ex<'a> {
                                 None => return Err("random stream: no piece".into()),
                             }
                         };
+                        trace.push(format!("{:016x} in [{:016x},{:x}) of {}{}", wd, p.start, p.end, pieces.len(), if p.retry { " retry" } else { "" }));
                         if p.retry {
                             continue;
                         }
